@@ -169,6 +169,12 @@ impl UrnLookup {
     /// `HashMap::remove`
     #[verifier::external_body]
     pub fn remove(&mut self, k: &(VaultId, Urn)) -> (r: Option<SecretId>) { unimplemented!() }
+    /// `HashMap::get`
+    #[verifier::external_body]
+    pub fn get(&self, k: &(VaultId, Urn)) -> (r: Option<&SecretId>) { unimplemented!() }
+    /// `HashMap::contains_key`
+    #[verifier::external_body]
+    pub fn contains_key(&self, k: &(VaultId, Urn)) -> (r: bool) { unimplemented!() }
 }
 /// what `SecretMeta::touch` changes: `last_updated` only (secret.rs:421 `self.last_updated = Default::default()`)
 pub uninterp spec fn touched(m: SecretMetaV) -> SecretMetaV;
@@ -390,6 +396,25 @@ impl AccessPoint {
     pub fn lock(&mut self)
         ensures final(self).vv() == old(self).vv(), !final(self).unlocked(), final(self).mirrored() == old(self).mirrored(),
     { unimplemented!() }
+    // -- the remaining read-only methods of `SecretAccess` (crates/vault/src/access_point.rs:35-145), so that
+    //    an edit that calls one of them still composes --
+    /// access_point.rs:289 `summary()`: `self.vault.summary()` = `&header.summary` (its id is the folder id)
+    #[verifier::external_body]
+    pub fn summary(&self) -> (r: &Summary)
+        ensures r.sid() == vault_id(self.vv()),
+    { unimplemented!() }
+    /// access_point.rs:297 `name()`: `self.vault.name()` = the name in the header
+    #[verifier::external_body]
+    pub fn name(&self) -> (r: &str)
+        ensures r@ == self.vv().head.name,
+    { unimplemented!() }
+    /// access_point.rs:256 `is_mirror()`: `self.mirror.is_some()` (whether a mirror is attached; says
+    /// nothing about `mirrored()`): no contract
+    #[verifier::external_body]
+    pub fn is_mirror(&self) -> (r: bool) { unimplemented!() }
+    /// access_point.rs:493 `verify(key)`: `self.vault.verify(key)`; reads only: no contract
+    #[verifier::external_body]
+    pub fn verify(&self, key: &AccessKey) -> (r: BkResult<()>) { unimplemented!() }
 }
 /// R12: `for id in vault.keys()` (vault.rs:805 `self.contents.data.keys()`, IndexMap order) is
 /// rewritten to `for id in it: vkeys(vault)`: the ids of the rows, in order
@@ -454,6 +479,28 @@ impl FolderEventLog {
         ensures
             r is Ok ==> patch_appended(Seq::<LogRow>::empty(), final(self).rows(), diff.patch.records()),
             r is Err ==> final(self).rows() == old(self).rows(),
+    { unimplemented!() }
+    // -- the other appending / clearing methods of `EventLog` (crates/core/src/events/event_log.rs), so that an
+    //    edit that calls one of them still composes --
+    /// event_log.rs:134 `patch_unchecked`: "Append a patch to this event log" (the success arm of
+    /// `patch_checked` without the proof comparison)
+    #[verifier::external_body]
+    pub fn patch_unchecked(&mut self, patch: &Patch<WriteEvent>) -> (r: BkResult<()>)
+        ensures
+            r is Ok ==> patch_appended(old(self).rows(), final(self).rows(), patch.records()),
+            r is Err ==> final(self).rows() == old(self).rows(),
+    { unimplemented!() }
+    /// event_log.rs:100 `apply_records`: "Append raw event records to the event log"
+    #[verifier::external_body]
+    pub fn apply_records(&mut self, records: Vec<EventRecord>) -> (r: BkResult<()>)
+        ensures
+            r is Ok ==> patch_appended(old(self).rows(), final(self).rows(), records@),
+            r is Err ==> final(self).rows() == old(self).rows(),
+    { unimplemented!() }
+    /// event_log.rs:27 `clear`: "Delete all events from the log file on disc and in-memory"
+    #[verifier::external_body]
+    pub fn clear(&mut self) -> (r: BkResult<()>)
+        ensures r is Ok ==> final(self).rows() == Seq::<LogRow>::empty(),
     { unimplemented!() }
 }
 impl EventLog<WriteEvent> for FolderEventLog {
